@@ -287,8 +287,10 @@ def _work():
 def _pool():
     global _POOL
     if _POOL is None:
+        # fork server: the classic variant is single-threaded after import (checked: 1 OS thread), so forking the
+        # pre-imported interpreter is safe and saves the ~4 s import of nifty.cl in each of the ~40 processes of a run
         _POOL = F.Pool(int(os.environ.get("VERIF_WORKERS", "6")), preload=("numpy", "scipy.sparse.linalg", "nifty.cl"),
-                       env={"NIFTY_REPO": REPO})
+                       env={"NIFTY_REPO": REPO}, fork=not os.environ.get("VERIF_NO_FORK"))
     return _POOL
 
 
